@@ -27,7 +27,8 @@ def one(args):
         out = {}
         for p in props:
             r = subprocess.run(['/venv/bin/python', '-m', 'ndverif', 'check', p, '--tier', 'quick', '--repo', d,
-                                '--no-evidence', '--no-selfcheck'], cwd='/verif', capture_output=True, text=True)
+                                '--no-evidence', '--no-selfcheck'], cwd='/verif', capture_output=True, text=True,
+                               env=dict(os.environ, NDVERIF_BUDGET='150'))
             rules = sorted({ln.split('rule=')[1].split()[0] for ln in r.stdout.splitlines() if ln.strip().startswith('rule=')})
             msg = ''
             if r.returncode == 2:
